@@ -378,3 +378,20 @@ def _c11_email_surrogate(v, m):
     i = v["input"]
     return (i["entry"] in ("parse_email", "Metadata.from_email") and isinstance(i["input"], str)
             and any(0xD800 <= ord(c) <= 0xDFFF for c in i["input"]) and "UnicodeEncodeError" in str(v.get("detail", "")))
+
+
+@matcher("c15_colliding_inputs")
+def _c15_colliding_inputs(v, m):
+    """no_repeats fails because an input without repeats collides with a tag the function adds itself: an ABI that is a
+    differently-cased `abi3`/`none`, a platform `any` (compatible_tags), or an interpreter inside the py range"""
+    inp = v["input"]
+    if v.get("law") != "no_repeats" or "repeats" not in (v.get("detail") or ""):
+        return False
+    which, ver, interp = inp["which"], tuple(inp["ver"]), inp.get("interp")
+    odd_abi = any(a.lower() in ("abi3", "none") and a not in ("abi3", "none") for a in inp["abis"])
+    if which in ("cpython", "generic"):
+        return odd_abi
+    if which == "compatible":
+        rng_ = [f"py{ver[0]}"] if len(ver) == 1 else [f"py{ver[0]}{ver[1]}", f"py{ver[0]}"] + [f"py{ver[0]}{z}" for z in range(ver[1])]
+        return "any" in [p.lower() for p in inp["plats"]] or bool(interp and interp.lower() in rng_)
+    return False
